@@ -17,7 +17,7 @@ type QSpec struct {
 	CB       string            // callback behaviour
 	Requests map[string]string // reply subject -> payload kind: valid | empty | nopayload | malformed
 	FailSub  bool
-	Events   int // number of query events started
+	Events   int  // number of query events started
 	Shutdown bool // the service is shut down while the event is active: the nil call cannot run any more
 }
 
@@ -165,6 +165,34 @@ func init() {
 			vsched.Recv(sdone)
 			vsched.Sleep(3 * qDuration)
 			vsched.AwaitQuiescence()
+			vsched.Sleep(3 * qDuration)
+			vsched.AwaitQuiescence()
+		}, sp
+	}})
+	// QEshutdownBusy: the query event expires while Shutdown is waiting for a callback of the same group.
+	reg(&Scenario{Name: "QEshutdownBusy", Make: func(cfg Cfg) (func(), *Spec) {
+		qs := &QSpec{CB: "model", Requests: map[string]string{}, Events: 1, Shutdown: true}
+		sp := &Spec{Closes: 1, Shutdown: true, Query: qs}
+		return func() {
+			q := newQWorld(cfg)
+			sdone := make(chan struct{}, 1)
+			q.StartServe(sdone)
+			q.S.With("t.q", func(r res.Resource) {
+				q.CB("start0", r.Group(), "g")
+				r.QueryEvent(q.qcb("model", 0))
+			})
+			vsched.Recv(q.subj)
+			entered := make(chan struct{}, 1)
+			q.S.WithGroup("g", func(*res.Service) {
+				vsched.Emit(Mon, "enter W1 g=g want=g")
+				vsched.Send(entered, struct{}{})
+				vsched.Sleep(3 * qDuration)
+				q.CB("W1b", "", "")
+				vsched.Emit(Mon, "exit W1")
+			})
+			vsched.Recv(entered)
+			shutdown(q.World)
+			vsched.Recv(sdone)
 			vsched.Sleep(3 * qDuration)
 			vsched.AwaitQuiescence()
 		}, sp
